@@ -341,7 +341,32 @@ func runC09(c *ctx, r *Report) error {
 	if !c.quick {
 		nV = 6000
 	}
-	return visitTie(c, r, nV, true, nil)
+	if err := visitTie(c, r, nV, true, nil); err != nil {
+		return err
+	}
+	// AL.Props.C09Rules.six_rules_per_job: in the model the diagnostics of matrix / credentials / env-var / id / permissions /
+	// if-cond are the header's plus, per job, a function of that job alone. Where the real rules report something else on a
+	// source, they depart from that.
+	per := 6
+	if !c.quick {
+		per = 300
+	}
+	return lwStandard(c, r, func(cs Case) (string, string) {
+		pick := func(s string) string {
+			var out []string
+			for _, d := range strings.Split(s, ";") {
+				f := strings.SplitN(d, ":", 4)
+				if len(f) == 4 && f[2] != "syntax-check" && f[2] != "job-needs" && f[2] != "glob" {
+					out = append(out, d)
+				}
+			}
+			return strings.Join(out, ";")
+		}
+		if pick(cs.Impl) != pick(cs.Model) {
+			return "rule-diagnostics-differ-from-per-job-model", "the diagnostics of the per-job rules (matrix, credentials, env-var, id, permissions, if-cond) differ from the model in which they are a function of each job alone"
+		}
+		return "", ""
+	}, per, true)
 }
 
 func min(a, b int) int {
